@@ -2,357 +2,23 @@ package state_test
 
 // C03 — The KV store behaves as a sequential versioned map.
 //
-// A rapid state machine applies generated histories (KV verbs direct and inside transactions, session
-// create/destroy, tombstone reaps, node/check (de)registration that ends sessions) to a real Store and, in
-// lock-step, to the 150-line reference model of verifstate.KVModel. After EVERY step: the reported verdict
-// equals the model's, every key of the universe reads back equal to the model (all six fields), every prefix
-// listing equals the model's prefix view in order, plus the statement's explicit clauses.
+// A rapid state machine (verif_shared_kvmachine_test.go) applies generated histories (KV verbs direct and
+// inside transactions, session create/destroy, tombstone reaps, node/check (de)registration that ends
+// sessions) to a real Store and, in lock-step, to the reference model verifstate.KVModel. After EVERY step:
+// the reported verdict equals the model's, every key of the universe reads back equal to the model (all six
+// fields), every prefix listing equals the model's prefix view in order, plus the statement's explicit clauses.
 
 import (
-	"bytes"
-	"encoding/json"
-	"fmt"
 	"os"
-	"sort"
 	"testing"
 
-	"github.com/hashicorp/consul/agent/consul/state"
 	"github.com/hashicorp/consul/agent/structs"
-	"github.com/hashicorp/consul/api"
 	"github.com/hashicorp/consul/internal/verifkit"
 	vs "github.com/hashicorp/consul/internal/verifstate"
 	"pgregory.net/rapid"
 )
 
-// verifC03KeyLockIndexReset: a plain set / check-and-set on a key whose lock counter is N > 0 stores counter 0
-// (kvsSetTxn keeps the holder but takes LockIndex from the request). Upstream's own unedited test
-// TestStateStore_KVSSetCAS pins a ModifyIndex that only results from that reset, so it cannot be repaired
-// without editing the suite: recorded as a known finding.
-const verifC03KeyLockIndexReset = "C03/plain-write-resets-lock-index"
-
-type verifC03Machine struct {
-	f     verifkit.F
-	c     *verifkit.Case
-	w     *vs.World
-	m     *vs.KVModel
-	lastDeleted map[string]bool // keys deleted at some point (for the non-triviality rule)
-}
-
-func verifC03New(f verifkit.F, c *verifkit.Case) *verifC03Machine {
-	s := state.NewStateStore(nil)
-	m := vs.NewKVModel()
-	if verifkit.For("C03").IsKnown(verifC03KeyLockIndexReset) {
-		// known finding excluded by construction: the model follows the defective behaviour and counts each time it matters
-		m.QuirkPlainWriteResetsLockIndex = true
-		m.OnQuirk = func() { c.KnownHit(verifC03KeyLockIndexReset); c.Label("known:plain-write-resets-lock-index") }
-	}
-	return &verifC03Machine{f: f, c: c, w: vs.NewWorld(s), m: m, lastDeleted: map[string]bool{}}
-}
-
 var verifC03Cfg = &vs.Cfg{KV: 50, Session: 14, Reap: 4, Catalog: 10, Dereg: 5, Txn: 30, TxnRO: 3, SessionChecks: true, MaxTxnOps: 5}
-
-// syncSessions makes the model's session set equal to the store's: sessions are an INPUT of the KV model
-// (who is alive), their effect on keys (release/delete) is what the model predicts.
-func (x *verifC03Machine) syncSessions(idx uint64) (ended []string) {
-	live := map[string]*structs.Session{}
-	_, ss, _ := x.w.Store.SessionList(nil, nil)
-	for _, s := range ss {
-		live[s.ID] = s
-	}
-	var ids []string
-	for id := range x.m.Sess {
-		if live[id] == nil {
-			ids = append(ids, id)
-		}
-	}
-	sort.Strings(ids)
-	for _, id := range ids {
-		x.m.SessionEnded(idx, id)
-		ended = append(ended, id)
-	}
-	for id, s := range live {
-		if x.m.Sess[id] == nil {
-			x.m.Sess[id] = &vs.MSess{ID: id, Behavior: string(s.Behavior), Node: s.Node}
-		}
-	}
-	return ended
-}
-
-func (x *verifC03Machine) step(op *vs.Op) {
-	f, c := x.f, x.c
-	before := map[string]*vs.MEntry{}
-	for k, e := range x.m.KV {
-		ce := *e
-		before[k] = &ce
-	}
-	res := vs.Apply(x.w.Store, op)
-	p := op.P
-	idx := op.Idx
-	c.Labelf("op=%s", op.Kind)
-
-	check := func(v vs.Verdict) {
-		gotErr := res.Err != nil
-		if gotErr != v.Err || (!gotErr && res.OK != v.OK) {
-			c.Violation(f, "C03/verdict/"+op.Kind, "op %s: store reported %s, model expects ok=%v err=%v", op.Desc, res, v.OK, v.Err)
-		}
-	}
-	switch op.Kind {
-	case vs.KVSet:
-		check(x.m.Set(idx, p.KV.Key, p.KV.Value, p.KV.Flags))
-	case vs.KVCAS:
-		check(x.m.CAS(idx, p.KV.Key, p.KV.Value, p.KV.Flags, p.KV.ModifyIndex))
-	case vs.KVDelete:
-		check(x.m.Delete(idx, p.KV.Key))
-	case vs.KVDeleteCAS:
-		check(x.m.DeleteCAS(idx, p.KV.Key, p.CASIndex))
-	case vs.KVDeleteTree:
-		check(x.m.DeleteTree(idx, p.KV.Key))
-	case vs.KVLock:
-		check(x.m.Lock(idx, p.KV.Key, p.KV.Value, p.KV.Flags, p.KV.Session))
-	case vs.KVUnlock:
-		check(x.m.Unlock(idx, p.KV.Key, p.KV.Value, p.KV.Flags, p.KV.Session))
-	case vs.Txn, vs.TxnRO:
-		x.stepTxn(op, res)
-	case vs.Reap:
-		// tombstones are invisible to get/list content
-	default:
-		// session / catalog ops: no direct KV effect; session endings are picked up below
-	}
-	if ended := x.syncSessions(idx); len(ended) > 0 {
-		c.Label("session-ended")
-		if op.Kind != vs.SessDestroy {
-			c.Label("session-ended-by-cascade")
-		}
-	}
-	x.compare(op, before)
-}
-
-func (x *verifC03Machine) stepTxn(op *vs.Op, res vs.Result) {
-	f, c := x.f, x.c
-	mc := x.m.Clone()
-	var failed []int
-	var expectReads [][]string
-	var expectSnap [][]*vs.MEntry // model entries right after the op ran (results reflect the state at op time)
-	for i, t := range op.P.Txn {
-		if t.KV == nil {
-			// catalog/session verbs inside a txn: not modelled here (C04/C05 cover them); their KV side effects
-			// arrive through syncSessions. A failing catalog verb aborts the txn: detect through the result.
-			expectReads = append(expectReads, nil)
-			expectSnap = append(expectSnap, nil)
-			continue
-		}
-		ok, reads := mc.TxnKV(op.Idx, t.KV)
-		if !ok {
-			failed = append(failed, i)
-		}
-		expectReads = append(expectReads, reads)
-		var snap []*vs.MEntry
-		for _, k := range reads {
-			if e := mc.KV[k]; e != nil {
-				ce := *e
-				snap = append(snap, &ce)
-			} else {
-				snap = append(snap, nil)
-			}
-		}
-		expectSnap = append(expectSnap, snap)
-	}
-	hasNonKV := false
-	for _, t := range op.P.Txn {
-		hasNonKV = hasNonKV || t.KV == nil
-	}
-	gotFailed := map[int]bool{}
-	for _, e := range res.Errors {
-		gotFailed[e.OpIndex] = true
-	}
-	for _, i := range failed {
-		if !gotFailed[i] {
-			c.Violation(f, "C03/txn-verb-should-fail/"+string(op.P.Txn[i].KV.Verb), "txn %s: op #%d (%s) must fail per model but store reported %s", op.Desc, i, vs.DescribeTxnOp(op.P.Txn[i]), res)
-			return
-		}
-	}
-	for i := range gotFailed {
-		if i < len(op.P.Txn) && op.P.Txn[i].KV != nil {
-			isModelFail := false
-			for _, j := range failed {
-				isModelFail = isModelFail || j == i
-			}
-			if !isModelFail {
-				c.Violation(f, "C03/txn-verb-should-succeed/"+string(op.P.Txn[i].KV.Verb), "txn %s: op #%d (%s) failed in store (%s) but model accepts it", op.Desc, i, vs.DescribeTxnOp(op.P.Txn[i]), res)
-				return
-			}
-		}
-	}
-	if len(res.Errors) > 0 {
-		c.Label("txn-aborted")
-		return // nothing applied; model unchanged
-	}
-	if op.Kind == vs.TxnRO {
-		c.Label("txn-ro-ok")
-	} else {
-		c.Label("txn-committed")
-		if len(op.P.Txn) > 1 {
-			c.Label("txn-multi-committed")
-		}
-		*x.m = *mc
-	}
-	// compare KV results with the model for pure-KV transactions (result positions are then predictable)
-	if hasNonKV {
-		return
-	}
-	var want []string // expected result keys in order
-	var wantE []*vs.MEntry
-	var wantVerb []api.KVOp
-	for i, t := range op.P.Txn {
-		switch t.KV.Verb {
-		case api.KVDelete, api.KVDeleteCAS, api.KVDeleteTree, api.KVCheckNotExists:
-			continue
-		}
-		want = append(want, expectReads[i]...)
-		wantE = append(wantE, expectSnap[i]...)
-		for range expectReads[i] {
-			wantVerb = append(wantVerb, t.KV.Verb)
-		}
-	}
-	if len(res.Results) != len(want) {
-		c.Violation(f, "C03/txn-result-count", "txn %s: %d results, model expects %d (%v)", op.Desc, len(res.Results), len(want), want)
-		return
-	}
-	for i, r := range res.Results {
-		if r.KV == nil {
-			c.Violation(f, "C03/txn-result-kind", "txn %s: result #%d is not a KV result", op.Desc, i)
-			return
-		}
-		if r.KV.Key != want[i] {
-			c.Violation(f, "C03/txn-result-key", "txn %s: result #%d has key %q, model expects %q", op.Desc, i, r.KV.Key, want[i])
-			return
-		}
-		me := wantE[i]
-		if me == nil {
-			continue // get-or-empty of an absent key
-		}
-		bad := r.KV.ModifyIndex != me.Modify || r.KV.CreateIndex != me.Create || r.KV.LockIndex != me.LockIndex || r.KV.Session != me.Session || r.KV.Flags != me.Flags
-		switch wantVerb[i] {
-		case api.KVGet, api.KVGetOrEmpty, api.KVGetTree:
-			bad = bad || !bytes.Equal(r.KV.Value, me.Value)
-		}
-		if bad {
-			if c.Violation(f, "C03/txn-result-content", "txn %s: result #%d %s differs from model %+v", op.Desc, i, vs.CanonJSON(r.KV), *me) {
-				continue
-			}
-			return
-		}
-	}
-}
-
-// compare reads every key and every prefix back and checks the statement's explicit clauses.
-func (x *verifC03Machine) compare(op *vs.Op, before map[string]*vs.MEntry) {
-	f, c := x.f, x.c
-	s := x.w.Store
-	for _, k := range vs.Keys {
-		_, got, err := s.KVSGet(nil, k, nil)
-		if err != nil {
-			c.Violation(f, "C03/get-error", "KVSGet(%q): %v", k, err)
-			continue
-		}
-		if d := x.m.CompareEntry(k, got); d != "" {
-			key := "C03/state/" + x.m.FirstDiffField(k, got) + "/after=" + op.Kind
-			if me := x.m.KV[k]; me != nil && got != nil && got.LockIndex == 0 && me.LockIndex > 0 && got.Session == me.Session &&
-				(op.Kind == vs.KVSet || op.Kind == vs.KVCAS || op.Kind == vs.Txn) {
-				key = verifC03KeyLockIndexReset
-			}
-			if c.Violation(f, key, "after %s: %s", op.Desc, d) {
-				x.m.AdoptEntry(k, got)
-			}
-			continue
-		}
-		// explicit clauses of the statement, asserted directly on the store's data
-		if b := before[k]; b != nil && got != nil && op.Kind != vs.Txn {
-			if got.CreateIndex != b.Create {
-				c.Violation(f, "C03/create-index-changed", "after %s: key %q CreateIndex %d -> %d while the key existed", op.Desc, k, b.Create, got.CreateIndex)
-			}
-			same := bytes.Equal(b.Value, got.Value) && b.Flags == got.Flags && b.Session == got.Session && b.LockIndex == got.LockIndex
-			if same && got.ModifyIndex != b.Modify {
-				c.Violation(f, "C03/noop-advanced-modify-index", "after %s: key %q unchanged but ModifyIndex %d -> %d", op.Desc, k, b.Modify, got.ModifyIndex)
-			}
-			if !same && got.ModifyIndex != op.Idx {
-				c.Violation(f, "C03/change-without-modify-index", "after %s: key %q changed but ModifyIndex=%d, step index=%d", op.Desc, k, got.ModifyIndex, op.Idx)
-			}
-			if got.LockIndex != b.LockIndex {
-				fresh := b.Session == "" && got.Session != ""
-				quirk := x.m.QuirkPlainWriteResetsLockIndex && got.LockIndex == 0 && (op.Kind == vs.KVSet || op.Kind == vs.KVCAS) // known finding, counted by the model
-				if !(fresh && got.LockIndex == b.LockIndex+1) && !quirk {
-					c.Violation(f, "C03/lock-index", "after %s: key %q LockIndex %d -> %d (holder %q -> %q)", op.Desc, k, b.LockIndex, got.LockIndex, b.Session, got.Session)
-				}
-			} else if b.Session == "" && got.Session != "" {
-				c.Violation(f, "C03/lock-index", "after %s: key %q freshly acquired but LockIndex stayed %d", op.Desc, k, got.LockIndex)
-			}
-		}
-	}
-	for _, pfx := range vs.Prefixes {
-		_, ents, err := s.KVSList(nil, pfx, nil)
-		if err != nil {
-			c.Violation(f, "C03/list-error", "KVSList(%q): %v", pfx, err)
-			continue
-		}
-		want := x.m.Keys(pfx)
-		var got []string
-		for _, e := range ents {
-			got = append(got, e.Key)
-		}
-		if fmt.Sprint(got) != fmt.Sprint(want) {
-			c.Violation(f, "C03/list-keys", "after %s: KVSList(%q) keys %q, model %q", op.Desc, pfx, got, want)
-			continue
-		}
-		for _, e := range ents {
-			if d := x.m.CompareEntry(e.Key, e); d != "" {
-				c.Violation(f, "C03/list-content", "after %s: KVSList(%q): %s", op.Desc, pfx, d)
-			}
-		}
-	}
-	// non-triviality bookkeeping
-	for k := range before {
-		if x.m.KV[k] == nil {
-			x.lastDeleted[k] = true
-		}
-	}
-	for k := range x.m.KV {
-		if before[k] == nil && x.lastDeleted[k] {
-			c.Label("recreate-after-delete")
-			c.NonTrivial()
-		}
-	}
-	switch op.Kind {
-	case vs.KVCAS, vs.KVDeleteCAS:
-		if x.lastDeleted[op.P.KV.Key] {
-			c.Label("cas-after-delete")
-			c.NonTrivial()
-		}
-	case vs.KVSet:
-		if b := before[op.P.KV.Key]; b != nil && b.Session != "" {
-			c.Label("set-on-locked-key")
-			c.NonTrivial()
-		}
-	case vs.KVLock:
-		if op.P.KV.Session != "" && x.m.Sess[op.P.KV.Session] == nil {
-			c.Label("lock-with-dead-session")
-			c.NonTrivial()
-		}
-	}
-}
-
-func verifC03Run(f verifkit.F, c *verifkit.Case, next func(x *verifC03Machine, i int) *vs.Op) {
-	x := verifC03New(f, c)
-	defer c.GuardPanic(f, "C03/panic")
-	for i := 0; ; i++ {
-		op := next(x, i)
-		if op == nil {
-			break
-		}
-		c.Op(op)
-		x.step(op)
-	}
-}
 
 func TestVerifC03Model(t *testing.T) {
 	rec := verifkit.For("C03")
@@ -361,7 +27,7 @@ func TestVerifC03Model(t *testing.T) {
 	rapid.Check(t, func(t *rapid.T) {
 		c := rec.NewCase()
 		n := rapid.IntRange(1, maxSteps).Draw(t, "steps")
-		verifC03Run(t, c, func(x *verifC03Machine, i int) *vs.Op {
+		verifKVRun("C03", t, c, nil, func(x *verifKVMachine, i int) *vs.Op {
 			if i >= n {
 				return nil
 			}
@@ -387,44 +53,22 @@ func verifC03Witnesses() map[string][]*vs.Op {
 	}
 }
 
-// TestVerifC03Replay re-executes saved histories without rapid.
+// TestVerifC03Replay re-executes saved histories (and the fixed witnesses) without rapid.
 func TestVerifC03Replay(t *testing.T) {
 	rec := verifkit.For("C03")
 	defer rec.Flush()
-	if len(verifkit.ReplayFiles("C03")) == 0 || os.Getenv("VERIF_REPLAY") == "" {
+	if os.Getenv("VERIF_REPLAY") == "" {
 		for name, ops := range verifC03Witnesses() {
 			c := rec.NewCase()
 			c.Label("witness:" + name)
-			verifC03Run(t, c, func(x *verifC03Machine, i int) *vs.Op {
-				if i >= len(ops) {
-					return nil
-				}
-				return ops[i]
-			})
+			verifKVRun("C03", t, c, nil, verifOpsFeeder(ops))
 			c.Done()
 		}
 	}
 	for _, path := range verifkit.ReplayFiles("C03") {
-		rp, err := verifkit.LoadReplay(path)
-		if err != nil {
-			t.Fatal(err)
-		}
-		var ops []*vs.Op
-		for _, raw := range rp.Ops {
-			var op vs.Op
-			if err := json.Unmarshal(raw, &op); err != nil {
-				t.Fatalf("%s: %v", path, err)
-			}
-			ops = append(ops, op.Load())
-		}
 		c := rec.NewCase()
 		c.Label("replay")
-		verifC03Run(t, c, func(x *verifC03Machine, i int) *vs.Op {
-			if i >= len(ops) {
-				return nil
-			}
-			return ops[i]
-		})
+		verifKVRun("C03", t, c, nil, verifOpsFeeder(verifLoadOps(t, path)))
 		c.Done()
 	}
 }
